@@ -1,6 +1,8 @@
 import WfProofs.TimersReload
 import WfProofs.TimersStuck
 import WfProofs.TimersPartial
+import WfProofs.TimersWake
+import WfModel.GenEngineShape
 /-!
 # C14 — pending retries and waiter timeouts across idle release and restart
 
@@ -27,6 +29,14 @@ release), `restart` (process stop) and `resume` (`_on_server_start`).
   by `to_serialized`, read back and restarted (`Runner.init (roundtrip live.st)`), remembers no exit
   command, and holds the same retry / waiter timers as the live heap: none.  Rests on the
   clock-erasure simulation of the whole reducer (`WfProofs/TimersErase.lean`).
+* Inside one incarnation (no cut at all) a pending timer takes effect only if the loop wakes up for it:
+  `C14_next_wakeup_is_earliest` (what `next_wakeup_timeout` makes the loop sleep until is the earliest entry of the
+  heap, never later than any entry), `C14_timer_pops_exactly_the_due` (`pop_due_ticks` moves exactly the due entries
+  to the tick buffer, nothing overdue stays behind, nothing is lost), `C14_every_timer_fires_when_due` (a loop that
+  sleeps until its wake-up time and pops has not passed the due time of any pending timer; those due at that instant
+  are in the buffer, all others still pending — by induction every timer is delivered exactly when due, whatever the
+  order in which the timers were armed).  The model keeps the heap as a bag with `minAt` for `scheduled_wakeups[0]`;
+  `C14_timer_heap_source_shape` pins what justifies that: the source changes the list through `heapq` only.
 -/
 set_option linter.unusedVariables false
 open Engine
@@ -376,3 +386,152 @@ example :
 example :
     let s := Srv.run C14.srvR C14.polR (Srv.start C14.srvR C14.startEv) (C14.actsR.take 4)
     ((s.step C14.srvR C14.polR .release).live.isSome) = true := by decide
+
+/-! ## inside one incarnation: the loop wakes up for every pending timer -/
+
+/-- `next_wakeup_timeout`: no timer ⇒ no wake-up; otherwise the loop sleeps until `w`, which is not in the past, is the
+due time of a pending timer (or *now*, when one is already due), and is not later than the due time of ANY pending
+timer that is still in the future -/
+theorem C14_next_wakeup_is_earliest (r : Runner) :
+    (r.nextWakeup = none ↔ r.heap = []) ∧
+    ∀ w, r.nextWakeup = some w →
+      r.now ≤ w ∧ (w = r.now ∨ ∃ t, t ∈ r.heap ∧ t.at_ = w) ∧ (∀ t, t ∈ r.heap → w ≤ t.at_ ∨ (w = r.now ∧ t.at_ ≤ r.now)) := by
+  constructor
+  · simp only [Runner.nextWakeup, Option.map_eq_none_iff]
+    exact minAt_none
+  · intro w h
+    simp only [Runner.nextWakeup, Option.map_eq_some_iff] at h
+    obtain ⟨m, hm, hw⟩ := h
+    have hle := minAt_le hm
+    obtain ⟨u, hu, hue⟩ := minAt_mem hm
+    by_cases hmn : m ≤ r.now
+    · rw [if_pos hmn] at hw
+      refine ⟨by omega, Or.inl hw.symm, ?_⟩
+      intro t ht
+      have := hle t ht
+      by_cases h2 : t.at_ ≤ r.now
+      · exact Or.inr ⟨hw.symm, h2⟩
+      · exact Or.inl (by omega)
+    · rw [if_neg hmn] at hw
+      refine ⟨by omega, Or.inr ⟨u, hu, by omega⟩, ?_⟩
+      intro t ht
+      have := hle t ht
+      exact Or.inl (by omega)
+
+/-- `pop_due_ticks` (the loop's wake-up with nothing else to do): every due timer's tick is in the tick buffer and its
+entry is gone from the heap, every other timer is still in the heap, the heap holds nothing else and nothing that is
+due, no entry is lost or duplicated, and the next sleep ends strictly in the future -/
+theorem C14_timer_pops_exactly_the_due (cfg : Cfg) (pol : Policy) (r : Runner) (hb : r.buf = []) (ho : r.outcome = none) :
+    let r' := r.step cfg pol .timer
+    (∀ t, t ∈ r.heap → if t.at_ ≤ r.now then t.tick ∈ r'.buf ∧ t ∉ r'.heap else t ∈ r'.heap) ∧
+    (∀ t, t ∈ r'.heap → t ∈ r.heap ∧ r.now < t.at_) ∧
+    r'.buf.length + r'.heap.length = r.heap.length ∧
+    r'.now = r.now ∧
+    (∀ w, r'.nextWakeup = some w → r'.now < w) := by
+  intro r'
+  have hr' : r' = _ := step_timer_eq cfg pol r hb ho
+  have hheap : ∀ t, t ∈ r'.heap ↔ t ∈ r.heap ∧ r.now < t.at_ := by
+    intro t
+    rw [hr']
+    simp only [List.mem_filter, Bool.not_eq_true', decide_eq_false_iff_not, Int.not_le]
+  have hnow : r'.now = r.now := by rw [hr']
+  refine ⟨?_, fun t ht => (hheap t).mp ht, ?_, hnow, ?_⟩
+  · intro t ht
+    by_cases hd : t.at_ ≤ r.now
+    · rw [if_pos hd]
+      refine ⟨?_, fun hin => by have := ((hheap t).mp hin).2; omega⟩
+      rw [hr']
+      exact List.mem_map.mpr ⟨t, mem_sortTimers_iff.mpr (List.mem_filter.mpr ⟨ht, by simpa using hd⟩), rfl⟩
+    · rw [if_neg hd]
+      exact (hheap t).mpr ⟨ht, by omega⟩
+  · rw [hr']
+    simp only [List.length_map, (sortTimers_perm _).length_eq]
+    have := (List.filter_append_perm (fun t : Timer => decide (t.at_ ≤ r.now)) r.heap).length_eq
+    simp only [List.length_append] at this
+    exact this
+  · intro w hw
+    obtain ⟨_, hor, _⟩ := (C14_next_wakeup_is_earliest r').2 w hw
+    simp only [Runner.nextWakeup, Option.map_eq_some_iff] at hw
+    obtain ⟨m, hm, hwm⟩ := hw
+    obtain ⟨u, hu, hue⟩ := minAt_mem hm
+    have := ((hheap u).mp hu).2
+    by_cases hmn : m ≤ r'.now
+    · omega
+    · rw [if_neg hmn] at hwm; omega
+
+/-- a control loop with nothing else to do sleeps until its wake-up time and pops (`Runner.sleepAndFire`).  If no timer
+is overdue beforehand (which `C14_timer_pops_exactly_the_due` re-establishes after every pop), then for EVERY pending
+timer `t`, in whatever order the timers were armed: the clock has not passed `t`'s due time; if it has reached it, `t`'s
+tick is in the tick buffer (it fires exactly when due); otherwise `t` is still pending.  And the round does deliver
+something -/
+theorem C14_every_timer_fires_when_due (cfg : Cfg) (pol : Policy) (r : Runner) (hb : r.buf = []) (ho : r.outcome = none)
+    (hfut : ∀ t, t ∈ r.heap → r.now < t.at_) :
+    let r' := r.sleepAndFire cfg pol
+    (∀ t, t ∈ r.heap → r'.now ≤ t.at_ ∧ (r'.now = t.at_ → t.tick ∈ r'.buf) ∧ (r'.now < t.at_ → t ∈ r'.heap)) ∧
+    (r.heap ≠ [] → r'.buf ≠ []) := by
+  intro r'
+  cases hw : r.nextWakeup with
+  | none =>
+    have hnil : r.heap = [] := (C14_next_wakeup_is_earliest r).1.mp hw
+    refine ⟨fun t ht => by rw [hnil] at ht; simp at ht, fun h => absurd hnil h⟩
+  | some w =>
+    obtain ⟨hge, hor, hall⟩ := (C14_next_wakeup_is_earliest r).2 w hw
+    have hr' : r' = (r.step cfg pol (.advance (w - r.now).toNat)).step cfg pol .timer := by
+      show r.sleepAndFire cfg pol = _
+      simp only [Runner.sleepAndFire, hw]
+    have hadv := step_advance_eq cfg pol r (w - r.now).toNat ho
+    let r1 : Runner := { r with now := r.now + ((w - r.now).toNat : Int) }
+    have hr1 : r.step cfg pol (.advance (w - r.now).toNat) = r1 := hadv
+    have hr1now : r1.now = w := by show r.now + ((w - r.now).toNat : Int) = w; omega
+    have hpop := C14_timer_pops_exactly_the_due cfg pol r1 hb ho
+    rw [hr1] at hr'
+    rw [← hr'] at hpop
+    obtain ⟨hdue, _, _, hnow, _⟩ := hpop
+    have hnow' : r'.now = w := by rw [hnow, hr1now]
+    constructor
+    · intro t ht
+      have hwt : w ≤ t.at_ := by
+        rcases hall t ht with h | ⟨_, h⟩
+        · exact h
+        · have := hfut t ht; omega
+      have h := hdue t ht
+      rw [hr1now] at h
+      refine ⟨by omega, ?_, ?_⟩
+      · intro he
+        rw [if_pos (by omega)] at h
+        exact h.1
+      · intro hl
+        rw [if_neg (by omega)] at h
+        exact h
+    · intro _
+      rcases hor with h | ⟨u, hu, hue⟩
+      · obtain ⟨m, hm, hwm⟩ := Option.map_eq_some_iff.mp hw
+        obtain ⟨u, hu, hue⟩ := minAt_mem hm
+        have := hfut u hu
+        by_cases hmn : m ≤ r.now
+        · omega
+        · rw [if_neg hmn] at hwm; omega
+      · have h := hdue u hu
+        rw [hr1now, if_pos (by omega)] at h
+        exact List.ne_nil_of_mem h.1
+
+/-- the source changes `scheduled_wakeups` through `heapq.heappush` / `heapq.heappop` only (re-read from control_loop.py on
+every run), so the list is a binary heap and `scheduled_wakeups[0]` — what `next_wakeup_timeout` and the loop condition of
+`pop_due_ticks` read — is its earliest entry: the `minAt` of the model -/
+theorem C14_timer_heap_source_shape :
+    GenEngineShape.wakeupMutators = ["heapq.heappop@pop_due_ticks", "heapq.heappush@schedule_tick"] := by decide
+
+/-- non-vacuity: three timers armed latest-first (waiter timeouts due at 15 and 9, then a retry due at 3), as the runner's
+heap holds them after the three pushes; the loop wakes at 3 for the retry, then at 9, then at 15 -/
+def C14.heap3 : Runner :=
+  { st := initState,
+    heap := [{ at_ := 15, seq := 0, tick := .waiterTimeout 2 7 }, { at_ := 9, seq := 1, tick := .waiterTimeout 4 7 },
+             { at_ := 3, seq := 2, tick := .addEvent { ev := { ty := 7, kind := .plain, uid := 3 }, attempts := some 1 } (some 6) }],
+    seq := 3 }
+example : C14.heap3.nextWakeup = some 3 := by decide
+example :
+    let r1 := C14.heap3.sleepAndFire C14.cfg2 C14.polW
+    (r1.now, r1.buf.length, r1.heap.map (·.at_), r1.nextWakeup) = (3, 1, [15, 9], some 9) := by decide
+example :
+    let r2 := ({ (C14.heap3.sleepAndFire C14.cfg2 C14.polW) with buf := [] }).sleepAndFire C14.cfg2 C14.polW
+    (r2.now, r2.buf, r2.heap.map (·.at_), r2.nextWakeup) = (9, [.waiterTimeout 4 7], [15], some 15) := by decide
